@@ -641,11 +641,35 @@ def one_pattern(col, rng, depth=None):
         judge(col, p, desc, t, 'unrelated')
 
 
+def repeated_dict_pattern(col, rng):
+    """ONE dict pattern object matched against several dicts within one Match run (list elements, dict values, nested rows):
+    each of them must satisfy the pattern on its own - a required key missing from any single row is a rejection"""
+    import copy
+    for _ in range(12):
+        row = ('dict', [(('klit', 'id'), ('type', int)), (('klit', 'name'), ('type', str)),
+                        (('kopt', 'tag', rng.choice([MISSING, 'dflt'])), ('type', str)), (('kreq', int), ('type', object))][:rng.randint(2, 4)])
+        full = lambda: {'id': 1, 'name': 'n', 7: 'extra'} if len(row[1]) >= 4 else {'id': 1, 'name': 'n'}[:0] if False else \
+            dict([('id', 1), ('name', 'n')][:min(len(row[1]), 2)] + ([(7, 'x')] if len(row[1]) >= 4 else []))
+        shapes = [('list', ('list', [row]), lambda rows: list(rows)),
+                  ('dict-values', ('dict', [(('ktype', str), row)]), lambda rows: {'r%d' % i: r for i, r in enumerate(rows)}),
+                  ('nested', ('list', [('dict', [(('klit', 'rows'), ('list', [row]))])]), lambda rows: [{'rows': list(rows)}, {'rows': list(rows)}])]
+        for sname, pat, wrap in shapes:
+            n = rng.randint(2, 4)
+            for victim in range(n):
+                for key in list(full()):
+                    rows = [full() for _ in range(n)]
+                    del rows[victim][key]
+                    judge(col, pat, describe(pat), wrap(rows), 'row-%s-lacks-a-key' % ('first' if victim == 0 else 'later'))
+            judge(col, pat, describe(pat), wrap([full() for _ in range(n)]), 'all-rows-conform')
+
+
 def run(ctx):
     col, rng = ctx.col, ctx.rng
     col.require('conforming_targets', 300)
     col.require('rejected_targets', 300)
     col.require('type_rule_rejections', 20)
     col.require('snapshots_compared', 500)
-    for i in range(ctx.n(1500, 15000)):
+    if ctx.shard == 0:
+        repeated_dict_pattern(col, rng)
+    for i in range(ctx.n(1200, 15000)):
         one_pattern(col, rng)
